@@ -220,8 +220,21 @@ func (m *monC20) run(w *World, q *QuerySpec) ([]item, map[string]string, uint64,
 			return out, resp.Pagination, nil
 		}
 	case "ent.whitelist":
-		for a := range m.snap.Ent.Whitelist {
+		for _, a := range sortedKeys(m.snap.Ent.Whitelist) {
+			// the corresponding point query must agree
+			var pr enttypes.QueryWhitelistedResponse
+			if err := abciQuery(w, "/mainchain.enterprise.v1.Query/Whitelisted", &enttypes.QueryWhitelistedRequest{Address: a}, &pr); err != nil || !pr.Whitelisted {
+				want[a] = "point query says not whitelisted"
+				continue
+			}
 			want[a] = a
+		}
+		// and must not report an address the list does not hold
+		if _, in := m.snap.Ent.Whitelist[actor]; !in {
+			var pr enttypes.QueryWhitelistedResponse
+			if err := abciQuery(w, "/mainchain.enterprise.v1.Query/Whitelisted", &enttypes.QueryWhitelistedRequest{Address: actor}, &pr); err == nil && pr.Whitelisted {
+				w.Violate("C20", "C20/ent.whitelist/point-query-reports-unlisted-address", "Whitelisted(%s)=true but the address is not on the whitelist", actor)
+			}
 		}
 		f = func(pr *query.PageRequest) ([]item, *query.PageResponse, error) {
 			var resp enttypes.QueryWhitelistResponse
